@@ -34,7 +34,8 @@ func (store *Store) GetAggregatedBalances(ctx context.Context, q GetAggregatedBa
 
 				switch address := value.(type) {
 				case string:
-					return filterAccountAddress(address, "account_address"), nil, nil
+					where, args := filterAccountAddress(address, "account_address")
+					return where, args, nil
 				default:
 					return "", nil, newErrInvalidQuery("unexpected type %T for column 'address'", address)
 				}
